@@ -47,6 +47,26 @@ def consts (P : PrimeSet) : String :=
     s!"baa={baa.h}:{showNats baa.hPowRed} red={r.h}:{r.mask}:{showNats r.cst}"
   if P.logQ = 30 then s ++ s!" qshift={showNats (P.qs.map qShifted)}" else s
 
+/-- the whole `NttTable` / `NttTableInv` of size `n` in the harness's `tab` format: bit sizes, per-level
+metadata (`bs:half_bs:mask:reduce:q2bs[0..4]`) and the flat `powomega` array (entry-major, prime-minor) -/
+def showTable (P : PrimeSet) (inverse : Bool) (n : Nat) : String :=
+  let tab := fun k => if inverse then inttTableK P k n else nttTableK P k n
+  match tab 0, tab 1, tab 2, tab 3 with
+  | .ok t0, .ok t1, .ok t2, .ok t3 =>
+    let lv := (List.range t0.levels.length).map (fun j =>
+      let g := fun (t : TableK) => (t.levels.getD j ({ q2bs := 0, bs := 0, halfBs := 0, mask := 0, reduce := false }, []))
+      let m := (g t0).1
+      s!"{m.bs}:{m.halfBs}:{m.mask}:{if m.reduce then 1 else 0}:{showNats [(g t0).1.q2bs, (g t1).1.q2bs, (g t2).1.q2bs, (g t3).1.q2bs]}")
+    let po := (List.range t0.levels.length).flatMap (fun j =>
+      let g := fun (t : TableK) => ((t.levels.getD j ({ q2bs := 0, bs := 0, halfBs := 0, mask := 0, reduce := false }, [])).2).toArray
+      let a0 := g t0; let a1 := g t1; let a2 := g t2; let a3 := g t3
+      interleave4 a0 a1 a2 a3 a0.size)
+    -- `n = 1`: the constructors return before `powomega.truncate`, leaving the 8 zero words of the allocation
+    let po := if t0.levels.isEmpty then List.replicate 8 0 else po
+    s!"64/{t0.outBs} {if lv.isEmpty then "-" else "|".intercalate lv} {showNats po}"
+  | .panic c, _, _, _ => "panic:" ++ c
+  | _, _, _, _ => "panic:assert"
+
 def handle (ts : List String) : String :=
   match ts with
   | [] => "bad-op"
@@ -61,6 +81,9 @@ def handle (ts : List String) : String :=
     let ell := kvNat args "ell"
     match op with
     | "consts" => consts P
+    | "ntt" => showOut showNats (transform P false (kvNat args "n") xa)
+    | "intt" => showOut showNats (transform P true (kvNat args "n") xa)
+    | "tab" => "fwd=" ++ showTable P false (kvNat args "n") ++ " inv=" ++ showTable P true (kvNat args "n")
     | "bfrom" => showChunks (xi.map (bFromZnx64 P))
     | "bfromm" => showChunks (xi.map (fun v => bFromZnx64Masked P v (kvInt args "mask")))
     | "cfrom" => showChunks (xi.map (cFromZnx64 P))
